@@ -374,7 +374,11 @@ type workerExit struct {
 
 // runWorker runs one harness process. wallLimit guards against a stalled simulator.
 func runWorker(env []string, wallLimit time.Duration) workerExit {
-	cmd := exec.Command(filepath.Join(verifDir, "build/harness.test"), "-test.run", "^TestWorker$", "-test.timeout", "0")
+	// the sandbox has no memory limit: a corrupted length in the system under test must not
+	// take the machine down, so every worker gets a 12 GB address-space limit (a worker that
+	// hits it dies with Go's out-of-memory fatal error and is handled like any other death)
+	cmd := exec.Command("/bin/sh", "-c", `ulimit -v 12582912 2>/dev/null; exec "$0" "$@"`,
+		filepath.Join(verifDir, "build/harness.test"), "-test.run", "^TestWorker$", "-test.timeout", "0")
 	cmd.Env = env
 	cmd.Dir = scratchDir
 	var mu sync.Mutex
@@ -779,6 +783,7 @@ func runCheck(prop, tier string, budgetMs, nWorkers int) int {
 		i        int
 		detail   string
 		caseJSON json.RawMessage // the generated case, written by the worker before it ran it
+		sig      string
 	}
 	var confirmedDeaths []deathCase
 	seenDeath := map[int]bool{}
@@ -802,9 +807,15 @@ func runCheck(prop, tier string, budgetMs, nWorkers int) int {
 			"SIM_BUDGET_MS=120000", "SIM_OUT="+out, "SIM_DUMP_CASE="+caseFile)
 		ex := runWorker(env, 5*time.Minute)
 		if !ex.done && !ex.timedOut {
-			dc := deathCase{i: i, detail: firstLines(ex.stderr, 60)}
+			dc := deathCase{i: i, detail: firstLines(ex.stderr, 60), sig: "process_death"}
 			if cb, err := os.ReadFile(caseFile); err == nil {
 				dc.caseJSON = cb
+				// the engine may recognise the death as a listed known finding (by the inputs of the case)
+				sigOut := filepath.Join(tmp, fmt.Sprintf("death-%d.sig", i))
+				runWorker(workerEnv("SIM_MODE=deathsig", "SIM_REPLAY="+caseFile, "SIM_OUT="+sigOut), 2*time.Minute)
+				if sb, err := os.ReadFile(sigOut); err == nil && len(sb) > 0 {
+					dc.sig = strings.TrimSpace(string(sb))
+				}
 			}
 			confirmedDeaths = append(confirmedDeaths, dc)
 		}
@@ -839,7 +850,7 @@ func runCheck(prop, tier string, budgetMs, nWorkers int) int {
 		exit = 1
 	}
 	for _, d := range confirmedDeaths {
-		sig := "process_death"
+		sig := d.sig
 		if kf := isKnown(prop, sig); kf != nil {
 			knownSeen[prop+" "+sig]++
 			continue
